@@ -8,7 +8,7 @@ V: TLC (TextTrace, kind `identity`) judges out = in byte for byte."""
 import glob, json, os, random
 import vlib
 from vlib import Report
-from text_common import trivia_cases, run_and_judge, text_of, only_bracket_spaces
+from text_common import trivia_cases, run_and_judge, text_of, only_bracket_spaces, rejudge_without_ellipsis_trivia
 
 PID = "C03"
 
@@ -37,6 +37,8 @@ def has_type_syntax(src):
 def judge_all(rep, cases, label):
     obs, verdicts, res = run_and_judge(rep.wd, label, cases)
     nonparse = 0
+    failing = [cid for cid, v in verdicts.items() if not v["ok"] and not obs[cid]["status"].startswith("parse_error")]
+    ellipsis = rejudge_without_ellipsis_trivia(rep.wd, label, obs, failing)      # finding F-C03-f, decided by the same TLC judge
     for cid, v in verdicts.items():
         o = obs[cid]
         if o["status"].startswith("parse_error"):
@@ -49,7 +51,8 @@ def judge_all(rep, cases, label):
             continue                 # inputs with type syntax: only the weaker clause is claimed; not judged here
         k = next((n for n in range(min(len(src), len(out))) if src[n] != out[n]), min(len(src), len(out)))
         sig = {"kind": "identity", "status": o["status"][:80],
-               "cause": "space-between-close-brackets" if o["status"] == "ok" and only_bracket_spaces(src, out) else "other",
+               "cause": "space-between-close-brackets" if o["status"] == "ok" and only_bracket_spaces(src, out)
+                        else "trivia-after-type-pack-ellipsis" if cid in ellipsis else "other",
                "first_difference_at": k, "src_excerpt": src[max(0, k - 30):k + 30], "out_excerpt": out[max(0, k - 30):k + 30]}
         rep.violation(sig, {k2: o[k2] for k2 in o if k2 not in ("srcb", "outb")} | {"src": src})
     return res, len(verdicts), nonparse
@@ -61,8 +64,9 @@ def run(tier):
     modes = ["single", "eof"] if tier == "quick" else ["single", "eof", "same", "adjacent"]
     cases, st, gen = trivia_cases(modes)
     if tier == "quick":
-        extra, st2, gen2 = trivia_cases(["same", "adjacent"])
-        cases += vlib.sample(extra, 3000, rng)
+        # pairs of trivia: one placement in 97 (the residue class is drawn from the seed)
+        extra, st2, gen2 = trivia_cases(["same", "adjacent"], stride=97, offset=rng.randrange(97))
+        cases += extra
         st += st2
         gen += gen2
     for k, c in enumerate(cases):
@@ -70,7 +74,9 @@ def run(tier):
         c["kind"] = "identity"
         c["rules"] = "[]"
     corpus = corpus_cases()
-    res, n, nonparse = judge_all(rep, cases + corpus, "identity")
+    # pinned reproducers of recorded findings (open: expected to fail in the recorded way; fixed: regression inputs)
+    pinned = [dict(r, kind="identity", rules="[]") for r in vlib.pinned_reproducers(PID) if r.get("kind", "identity") == "identity"]
+    res, n, nonparse = judge_all(rep, cases + corpus + pinned, "identity")
     if nonparse > len(cases) // 50:
         raise vlib.ToolError("%d of %d generated sources did not parse: templates or darklua's parser changed" % (nonparse, n))
     distinct = len(set(c["src"] for c in cases + corpus))
@@ -92,7 +98,7 @@ def replay(path, tier):
     rep = Report(PID, tier, "exploration")
     with open(path) as f:
         c = json.load(f)["case"]
-    case = {"id": c.get("id", "replay"), "src": c["src"], "kind": "identity", "rules": "[]"}
+    case = {"id": c.get("id", "replay"), "src": c["src"], "kind": "identity", "rules": "[]", "tspans": c.get("tspans", [])}
     res, n, _ = judge_all(rep, [case], "replay")
     rep.coverage.update({"evaluations": 1, "distinct_nontrivial": 2, "rule": "replay of one case (and its pair)", "samples": [case["src"][:300]]})
     return rep.finish()
